@@ -509,3 +509,20 @@ func mkdirAllReal(p string) error {
 
 // RemoveTree deletes a scratch directory with the real OS.
 func RemoveTree(dir string) { os.DsimRealRemoveAll(dir) }
+
+// Sub returns the part of the image below rel (paths keep their full relative form).
+func (img *Image) Sub(rel string) *Image {
+	out := &Image{Files: map[string][]byte{}}
+	under := func(p string) bool { return p == rel || strings.HasPrefix(p, rel+"/") }
+	for _, d := range img.Dirs {
+		if under(d) {
+			out.Dirs = append(out.Dirs, d)
+		}
+	}
+	for p, b := range img.Files {
+		if under(p) {
+			out.Files[p] = b
+		}
+	}
+	return out
+}
